@@ -86,6 +86,10 @@ func (fs *Filesystem) MkdirTemp(dir, pattern string) (string, error) {
 		if err != nil {
 			return "", err
 		}
+	} else {
+		// No directory given: os.MkdirTemp would use the host's temporary
+		// directory, which lies outside this filesystem
+		dir = fs.base
 	}
 	result, err := os.MkdirTemp(dir, pattern)
 	if err != nil {
